@@ -302,6 +302,7 @@ pub fn scenarios(thorough: bool) -> Vec<SubsScenario> {
 }
 
 pub fn check(rep: &Reporter) {
+	rep.assume("scenario oversized-accept-answer: max_response_body_size 100 with 128-byte subscription ids, so the accept() answer is replaced by -32008 and the subscription counts as never accepted; accept()'s documented panic in that configuration is not reported");
 	let thorough = rep.tier.thorough();
 	rep.set_rule(
 		"WebSocket connections (1–2) served in memory by the real TowerService; scenarios combine peer scripts over {subscribe, unsubscribe own/foreign id, call, close frame, abrupt drop}, puppet handler scripts over {accept, reject, drop pending, send, try_send, is_closed, closed().await, return none/error/close message}, server stop, message buffer 16/1; every peer action, every handler step, stop() and (per scenario) the library's cfg points in accept/send/close-notification or all server tasks are scheduling points; complete schedule tree when ≤ cap executions, else all schedules with ≤ K deviations. Monitor over the complete frame list of each connection and the handler log in trace order.",
